@@ -8,8 +8,11 @@ content and continue on the same file, as a restarted scenario does).  Model: an
 
 from __future__ import annotations
 
+import math
+
 import os
 
+import numpy as np
 from numpy import array, asarray
 
 from ..core import canon
@@ -171,9 +174,129 @@ def solved_problem_roundtrip(ctx):
     ctx.sample = cfg
 
 
+def design_space_roundtrip(ctx):
+    """A generated design space written to a file (HDF root / nested node, possibly next to other data, or the text
+    format) and read back: same names in the same order, sizes, types, bounds, current values."""
+    from gemseo.algos.database import Database
+    from gemseo.algos.design_space import DesignSpace
+
+    t = ctx.tape
+    names_pool = ["x", "alpha", "x_1", "y2", "long_variable_name", "Z"]
+    start = t.choice(len(names_pool), "first_name")
+    n_vars = t.randint(1, 4, "n_vars")
+    nice = [0.0, 1.0, -1.0, 0.5, 2.0, 1.0 / 3.0, 1e-7, 123456.789012345, -0.1, 1e10]
+    spec = []
+    ds = DesignSpace()
+    for v in range(n_vars):
+        with t.frame("var"):
+            name = names_pool[(start + v) % len(names_pool)]
+            size = t.randint(1, 3, "size")
+            integer = t.flag(0.3, "integer")
+            lbs, ubs, vals = [], [], []
+            has_value = not t.flag(0.3, "no_current_value")
+            for c in range(size):
+                kind = t.weighted([5, 1, 1, 1], "bounds")
+                if integer:
+                    lo = t.randint(-3, 1, "ilb")
+                    hi = lo + t.randint(0, 4, "ispan")
+                    val = float(lo + t.choice(hi - lo + 1, "ival"))
+                    lo, hi = float(lo), float(hi)
+                else:
+                    lo = nice[t.choice(len(nice), "lb")] - 1.0
+                    hi = lo + abs(nice[t.choice(len(nice), "span")]) + 0.25
+                    val = lo + (hi - lo) * t.choice(5, "val") / 4.0
+                if kind in (1, 3):
+                    lo = -math.inf
+                if kind in (2, 3):
+                    hi = math.inf
+                lbs.append(lo)
+                ubs.append(hi)
+                vals.append(val)
+            ds.add_variable(name, size=size, type_="integer" if integer else "float", lower_bound=array(lbs), upper_bound=array(ubs),
+                            value=array(vals) if has_value else None)
+            spec.append((name, size, "integer" if integer else "float", lbs, ubs, vals if has_value else None))
+    fmt = t.weighted([3, 2, 2], "format")  # to_hdf / to_csv / to_file (extension decides)
+    node = t.pick(["", "a/b", "n"], "node") if fmt == 0 else ""
+    other = t.flag(0.4, "file_holds_other_data") if fmt == 0 else False
+    ext = t.pick([".h5", ".hdf5", ".csv", ".txt"], "extension") if fmt == 2 else (".h5" if fmt == 0 else ".csv")
+    path = str(ctx.scratch / ("space" + ext))
+    cfg = {"family": "design space round trip", "variables": spec, "format": ["to_hdf", "to_csv", "to_file"][fmt], "node": node, "other_data": other, "extension": ext}
+    ctx.event("cfg", canon(cfg))
+    sig = "design space " + cfg["format"] + (" text" if ext in (".csv", ".txt") else " hdf")
+    text = ext in (".csv", ".txt")
+    try:
+        if other:
+            ctx.fire("file_already_holds_other_data")
+            o = DesignSpace()
+            o.add_variable("other", size=2, lower_bound=0.0, upper_bound=1.0, value=array([0.5, 0.5]))
+            other_node = "" if node else "elsewhere"
+            if t.flag(0.5, "other_is_database"):
+                odb = Database(input_space=o)
+                odb.store(array([0.25, 0.75]), {"f": 1.0})
+                odb.to_hdf(path, hdf_node_path=other_node)
+            else:
+                o.to_hdf(path, hdf_node_path=other_node)
+        if fmt == 0:
+            ds.to_hdf(path, append=other, hdf_node_path=node)
+            back = DesignSpace.from_hdf(path, hdf_node_path=node)
+        elif fmt == 1:
+            ds.to_csv(path)
+            back = DesignSpace.from_csv(path)
+        else:
+            ds.to_file(path)
+            back = DesignSpace.from_file(path)
+    except Exception as exc:  # noqa: BLE001
+        ctx.violate("C11.design_space_roundtrip", sig + f" raised={type(exc).__name__}", f"round trip raised {exc!r}; cfg={cfg}")
+    diffs = []
+
+    def close(a, b):
+        a, b = np.asarray(a, dtype=float), np.asarray(b, dtype=float)
+        if a.shape != b.shape:
+            return False
+        if not text:
+            return bool(np.array_equal(a, b))
+        return bool(np.all((a == b) | (np.abs(a - b) <= 1e-15 * np.maximum(np.abs(a), np.abs(b)))))  # 16 significant digits
+
+    if list(back.variable_names) != [s_[0] for s_ in spec]:
+        diffs.append(f"names {[s_[0] for s_ in spec]} -> {list(back.variable_names)}")
+    else:
+        for name, size, typ, lbs, ubs, vals in spec:
+            if back.get_size(name) != size:
+                diffs.append(f"{name}: size {size} -> {back.get_size(name)}")
+                continue
+            if str(back.get_type(name)) != typ and getattr(back.get_type(name), "value", None) != typ:
+                diffs.append(f"{name}: type {typ} -> {back.get_type(name)!r}")
+            if not close(back.get_lower_bound(name), lbs):
+                diffs.append(f"{name}: lower bound {lbs} -> {back.get_lower_bound(name)}")
+            if not close(back.get_upper_bound(name), ubs):
+                diffs.append(f"{name}: upper bound {ubs} -> {back.get_upper_bound(name)}")
+            has = name in back.get_current_value(as_dict=True, complex_to_real=True) if back.has_current_value or vals is None else False
+            cur = back._DesignSpace__current_value.get(name) if hasattr(back, "_DesignSpace__current_value") else None
+            if vals is None:
+                if cur is not None:
+                    diffs.append(f"{name}: no current value -> {cur}")
+            elif cur is None or not close(cur, vals):
+                diffs.append(f"{name}: current value {vals} -> {cur}")
+        if not text and back != ds:
+            diffs.append("DesignSpace.__eq__ says the reloaded space differs")
+    if other and fmt == 0:
+        # the data that was in the file is still there
+        try:
+            on = "" if node else "elsewhere"
+            DesignSpace.from_hdf(path, hdf_node_path=on)
+        except Exception as exc:  # noqa: BLE001
+            diffs.append(f"the design space that was already in the file can no longer be read: {exc!r}")
+    if diffs:
+        ctx.violate("C11.design_space_roundtrip", sig, f"changed by the round trip: {diffs[:5]}; cfg={cfg}")
+    ctx.case(canon(cfg), nontrivial=n_vars >= 2)
+    ctx.sample = {k: str(v) for k, v in cfg.items()}
+
+
 def run(ctx):
     if ctx.tape.flag(0.12, "solved_problem_roundtrip"):
         return solved_problem_roundtrip(ctx)
+    if ctx.tape.flag(0.1, "design_space_roundtrip"):
+        return design_space_roundtrip(ctx)
     if ctx.tape.flag(0.08, "cache_reload"):
         from ._cache_protocol import api_history
 
